@@ -59,4 +59,15 @@ CHECKS = {
         "level_note": "encoding/json.Indent is the trusted formatter for the indent relation (so defects of go-json's own Indent cannot mask or fake a failure). Pointer-receiver marshalers appear only behind pointers (value vs pointer legitimately differ there).",
         "assumptions": ["colour markers use bytes that cannot occur raw in JSON output"],
     },
+    "C04": {
+        "pkg": "c04", "variants": [PLAIN],
+        "rule": ("rapid draws a round-trippable type (no lossy marshalers, exported fields, finite floats, valid UTF-8, JSON-natural interface values, structs of up to 18 fields) "
+                 "and 1-4 values; paths Marshal->Unmarshal, MarshalIndent->Unmarshal, Encoder(k values)->Decoder over a reader delivering drawn piece sizes. Precheck: encoding/json "
+                 "itself round-trips the value (else the case is discarded and counted). Oracle: reflect.DeepEqual(v, decoded). Non-trivial = recipe has >= 3 non-zero draws and the text is "
+                 "longer than 4 bytes; distinct by hash(type, text, path)."),
+        "technique": "property-based round-trip testing (Marshal then Unmarshal, Encoder then chunked Decoder) with an encoding/json round-trip precheck defining the domain",
+        "level_text": "Randomised round-trip exploration over generated types/values and stream chunkings; exploration level.",
+        "level_note": "Domain = values that encoding/json round-trips; reflect.DeepEqual is the equality.",
+        "assumptions": ["a value is 'JSON-representable' iff encoding/json round-trips it"],
+    },
 }
